@@ -16,6 +16,7 @@ package sharding
 import (
 	"context"
 	"fmt"
+	"sort"
 	"strings"
 	"sync"
 	"time"
@@ -653,7 +654,9 @@ func (sc *ShardingController) assignmentNeedsUpdate(shard *shardv1alpha1.NodeSha
 	return changed
 }
 
-// listNodesFromCache lists nodes from informer cache
+// listNodesFromCache lists nodes from informer cache, ordered by name: the lister returns them in
+// the map iteration order of the informer store, and the shard calculation breaks score ties by
+// list order, so the same cluster state must always be presented in the same order.
 func (sc *ShardingController) listNodesFromCache() ([]*corev1.Node, error) {
 	if sc.nodeLister == nil {
 		return nil, fmt.Errorf("nodeLister not initialized")
@@ -665,6 +668,7 @@ func (sc *ShardingController) listNodesFromCache() ([]*corev1.Node, error) {
 		return nil, err
 	}
 
+	sort.Slice(nodes, func(i, j int) bool { return nodes[i].Name < nodes[j].Name })
 	return nodes, nil
 }
 
